@@ -530,6 +530,13 @@ func racItemPool() []ast.ItemNode {
 	})
 	add(func() ast.ItemNode { return ast.NewListNode() })
 	add(func() ast.ItemNode { return ast.NewListNode("xv", "yv") })
+	// names that differ only in letter case are different variables
+	add(func() ast.ItemNode {
+		return ast.NewListNode(ast.NewASCIINodeVariable("ppid", 0, -1), ast.NewASCIINodeVariable("PPID", 1, 8), ast.NewIntNode(4, "dx", "dX", -1), "Item", "item")
+	})
+	// negative zero keeps its sign bit through printing and parsing
+	add(func() ast.ItemNode { return ast.NewFloatNode(4, float32(math.Copysign(0, -1)), float32(0)) })
+	add(func() ast.ItemNode { return ast.NewFloatNode(8, math.Copysign(0, -1), 0.0) })
 	add(func() ast.ItemNode {
 		return ast.NewListNode(ast.NewIntNode(1, 1), ast.NewListNode(ast.NewASCIINode("x\"y"), ast.NewBooleanNode(true)), ast.NewListNode(), ast.NewUintNode(2, 7))
 	})
@@ -613,6 +620,8 @@ func racCorpus() (accepted []string, rejected []string) {
 		"S1F1 H->E m\n<L ... <U1 1>>\n.",
 		"S1F1 H->E m\n<Q 1>\n.",
 		"S1F1 m\n<U1 1>\n.",
+		"S1F1 H->E m\n<U1 [2] 300>\n.",
+		"S1F1 H->E m\n<L [1] <I1 [1] 1 200> <B [3] 256 1> <A [1] 200 \"ab\">>\n.",
 	}
 	return accepted, rejected
 }
@@ -740,6 +749,15 @@ func racLayoutInvariant() bool {
 				fail("wider whitespace", text, v)
 				return
 			}
+			// every blank of the message text (not of the header line) becomes a line break
+			if nl := strings.Index(text, "\n"); nl >= 0 {
+				v = text[:nl] + racOutsideQuotes(text[nl:], func(s string) string { return strings.ReplaceAll(s, " ", "\n") })
+				n++
+				if !racSameModuloPositions(base, racParse(v), false) {
+					fail("line breaks instead of blanks", text, v)
+					return
+				}
+			}
 		}
 		// letter case of keywords, type names and number prefixes (variable-free item text only: names are case sensitive)
 		for _, pair := range [][2]string{
@@ -794,6 +812,15 @@ func racConcatIndependent() bool {
 		if len(p3.errs) != 0 || fmt.Sprint(p3.msgs) != fmt.Sprint(append(append(append([]string{}, p1.msgs...), p1.msgs...), p1.msgs...)) {
 			racConcatOK = false
 			fmt.Printf("GOVC-NOTE racConcatIndependent: repeated message with reused names gives %v errors %v\n", p3.msgs, p3.errs)
+			return
+		}
+		// long sequences: twelve messages without a direction (one warning each) are twelve messages
+		six := strings.Repeat("S1F1 W nodir\n<U1 1>\n.\n", 6)
+		p6, p12 := racParse(six), racParse(six+six)
+		n++
+		if len(p6.msgs) != 6 || len(p12.errs) != 0 || len(p12.msgs) != 12 || len(p12.warns) != 2*len(p6.warns) {
+			racConcatOK = false
+			fmt.Printf("GOVC-NOTE racConcatIndependent: six messages without direction give %d messages and %d warnings, twice the text gives %d messages, %d warnings, errors %v\n", len(p6.msgs), len(p6.warns), len(p12.msgs), len(p12.warns), p12.errs)
 			return
 		}
 		fmt.Println("GOVC-COUNT racConcatIndependent concatenations compared:", n)
